@@ -10,13 +10,26 @@
       content or the complete new content"   C23_atomic (every prefix of the operation trace), C23_final_state
      "The text written ... is a function of the cdef declarations, module name and C source only: identical
       across processes, hash seeds and repeated calls"
-                                        NOT proved as such.  Proved: C23_sorted_emission_order — a list obtained
-                                        by sorted(items, key) with keys distinct does not depend on the order in
-                                        which a set/dict delivered the items (the only way the hash seed can
-                                        reach the emitter).  Decided by the check only: that recompiler.py
-                                        iterates its hash-ordered containers exclusively through sorted(...)
-                                        (source audit, every run) and that the emitted bytes coincide across 4
-                                        PYTHONHASHSEED values, repeated calls and fresh FFI objects (sampling).
+        Proved, about a model whose site list is REGENERATED from the source on every run (Gen.v `audit_sites`:
+        every use of a set-valued expression — tracked by provenance through assignments, results and arguments —,
+        every dict iteration and every process-dependent call in recompiler.py, cffi_opcode.py, model.py,
+        cparser.py):
+          C23_audit_sites_ok                    every site falls in a class covered by one of the theorems below;
+                                                an unsorted iteration over a set, sorted() of a set with a key, a
+                                                set escaping to unknown code, id()/time()/... break THIS obligation
+          C23_fold_order_independent            membership / len / any / all / add / update / set algebra: a
+                                                commutative step does not see the order
+          C23_sorted_emission_order             sorted(set): the same list for every delivery order
+          C23_singleton_order_independent       a set that never holds more than one element
+          C23_dict_order_is_insertion_order     dicts: order of first insertion (language guarantee, 3.7+)
+          C23_emit_independent_of_set_order     composite: an emitter that looks at its sets only through such
+                                                consumers ends in the same state (text) whatever order the hash
+                                                seed / addresses make each set deliver its elements in.
+        NOT proved: that recompiler.py IS such an emitter (the audit is syntactic, name-based, and trusts that
+        sets only arise from set constructors in these four files; dict insertion order is deterministic because
+        the program is, by induction on the run — argued, not mechanised).  The check therefore also samples:
+        emitted bytes across 4 PYTHONHASHSEED values, repeated calls and fresh FFI objects, on cdefs that reach
+        every audited site that emission can reach (sites hit are listed in the evidence).
    The skeleton of write_trace is hand-written; it is tied to the code by comparing the real I/O-call trace
    with it on every run, and its decisive parts are re-extracted from the source (Gen.v).
 
@@ -26,7 +39,7 @@
 From Coq Require Import List NArith ZArith Bool.
 Import ListNotations.
 From Coq Require Import Permutation Sorted.
-From Cffi Require Import C25.Model C25.Proofs C35.PyStr C35.Model C23.Model C23.Gen C23.Proofs C23.Order.
+From Cffi Require Import C25.Model C25.Proofs C35.PyStr C35.Model C23.Model C23.AuditModel C23.Gen C23.Proofs C23.Order C23.AuditProofs.
 Open Scope N_scope.
 
 (* regenerating into a file whose content is already identical: no mutating operation at all
@@ -84,6 +97,36 @@ Proof.
 Qed.
 Print Assumptions C23_sorted_emission_order.
 
+(* the regenerated audit: every site is covered by one of the theorems below *)
+Theorem C23_audit_sites_ok : forallb site_ok audit_sites = true.
+Proof. vm_compute. reflexivity. Qed.
+Print Assumptions C23_audit_sites_ok.
+
+Theorem C23_fold_order_independent : forall (S A : Type) (f : S -> A -> S),
+  (forall st x y, f (f st x) y = f (f st y) x) ->
+  forall l l', Permutation l l' -> forall st, fold_left f l st = fold_left f l' st.
+Proof. intros S A f. exact (fold_order_independent f). Qed.
+Print Assumptions C23_fold_order_independent.
+
+Theorem C23_singleton_order_independent : forall (A : Type) (l l' : list A),
+  Permutation l l' -> (length l <= 1)%nat -> l = l'.
+Proof. intros A. exact (@singleton_order_independent A). Qed.
+Print Assumptions C23_singleton_order_independent.
+
+Theorem C23_dict_order_is_insertion_order : forall ins, NoDup (dict_order ins) /\
+  (forall k, In k (dict_order ins) -> In k ins).
+Proof.
+  intros ins. split; [apply dict_order_nodup|]. intros k H. apply dict_order_acc_in in H. tauto.
+Qed.
+Print Assumptions C23_dict_order_is_insertion_order.
+
+(* composite: for any state type, any program of audited looks at sets and any two ways the sets may deliver their
+   elements (fair oracles: permutations), the run ends in the same state *)
+Theorem C23_emit_independent_of_set_order : forall (St : Type) (prog : list (step St)) (o o' : oracle) st,
+  Forall (step_ok St) prog -> fair o -> fair o' -> run_emitter St o 0 prog st = run_emitter St o' 0 prog st.
+Proof. intros St prog o o' st. apply run_oracle_independent. Qed.
+Print Assumptions C23_emit_independent_of_set_order.
+
 (* non-vacuity: old "ab\n", new "ac\n": the seven operations and the states they go through *)
 Example C23_example :
   write_trace the_holes true (Some [97;98;10]) [97;99;10] =
@@ -98,6 +141,14 @@ Proof. vm_compute. split; reflexivity. Qed.
 Example C23_example_uptodate :
   write_trace the_holes true (Some [97;10]) [97;10] = ([OOpenRead Target; ORead Target 3; OClose Target], false).
 Proof. vm_compute. reflexivity. Qed.
+
+(* a two-look emitter (sorted local variables, then the singleton free line) under two delivery orders *)
+Example C23_example_emitter :
+  let prog := [mk_step (list cstr) (fun _ => [[98]; [97]; [99]]) (CSorted _ (fun st l => st ++ l));
+               mk_step (list cstr) (fun _ => [[102]]) (CSingleton _ (fun st l => st ++ l))] in
+  run_emitter (list cstr) (fun _ l => l) 0 prog [] = [[97]; [98]; [99]; [102]] /\
+  run_emitter (list cstr) (fun _ l => rev l) 0 prog [] = [[97]; [98]; [99]; [102]].
+Proof. vm_compute. split; reflexivity. Qed.
 
 (* three declarations delivered in two different orders are emitted in the same order *)
 Example C23_example_order :
